@@ -31,7 +31,7 @@ C13Cases == {SetSeq(s) : s \in SUBSET Rewrites}
 
 (* C10: every text-valued parameter x every string of up to K1 character classes *)
 Params == {"persist", "persist-id", "cancel-persist-id", "log", "log-after-failed-write", "instance", "xpath", "xpath-get", "url-edit", "url-delete",
-           "text-config", "json-config", "set-config", "subtree-filter", "edit-fragment", "copy-fragment"}
+           "text-config", "json-config", "set-config", "subtree-filter", "edit-fragment", "copy-fragment", "edit-opaque", "load-opaque"}
 Classes == {"plain", "lt", "gt", "amp", "quot", "apos", "delim", "nonascii", "space"}
 C10Cases == {[param |-> p, classes |-> c] : p \in Params, c \in SeqsUpTo(Classes, K1)}
 
